@@ -557,10 +557,14 @@ func checkC09(cs *Case, o *pt.Obs) (err error) {
 			err = inc // the runner recognises the unwrapped type only
 			return
 		}
+		var oe *sut.OpError
 		if errors.Is(err, sut.ErrWorkerDied) {
 			err = fmt.Errorf("server process died: %s", pt.CrashDetail(c))
 		} else if errors.Is(err, sut.ErrTimeout) {
 			err = pt.Inconclusivef("worker command timed out")
+		} else if errors.As(err, &oe) && !strings.HasPrefix(oe.Msg, "PANIC") {
+			// put/rotate/set could not be carried out (I/O trouble etc.): nothing was observed about queries
+			err = pt.Inconclusivef("worker operation failed: %v", err)
 		}
 	}()
 
